@@ -331,6 +331,31 @@ pub fn c15_random(ctx: &Ctx, rng: &mut Rng, seed: u64, quick: bool) -> History {
     History { property: "C15".into(), seed, label, steps }
 }
 
+/// Long lives of one data directory: 10 to 24 steps - undisturbed starts (on-disk first or in-memory
+/// first), the real program, in-memory-only sessions, damage between starts, now and then a fault -
+/// with the directory invariant after every step and the recovery oracle at every undisturbed start.
+/// Anything that accumulates from start to start (generations, segments, leftovers) has time to show.
+pub fn c15_soak(ctx: &Ctx, rng: &mut Rng, seed: u64, quick: bool) -> History {
+    let subset = if quick { qprime_subset(ctx, rng, 40) } else { qprime_subset(ctx, rng, 200) };
+    let n = rng.range(10, 24);
+    let mut steps = vec![Step::Fabricate { state: state(true, MetaSpec::Absent, IndexSpec::Absent) }];
+    for _ in 0..n {
+        match rng.below(12) {
+            0 => steps.push(Step::Damage { d: random_damage(ctx, rng) }),
+            1 => {
+                let faults = random_fault(ctx, rng);
+                steps.push(Step::Start { session: c15_session(ctx, faults, subset.clone()) });
+            }
+            2 | 3 => steps.push(Step::Cli { query: "1 + 1".into(), exact: false, describe: false, env: vec![], split: false, inject: None }),
+            4 => steps.push(Step::Start { session: ctx.session(1, vec![], vec![Op::Open { slot: 1, mode: Mode::Mem, plan: Plan::default() }]) }),
+            _ => steps.push(Step::Start { session: c15_session_ordered(ctx, vec![], subset.clone(), rng.chance(1, 2)) }),
+        }
+    }
+    steps.push(Step::Start { session: c15_session(ctx, vec![], subset.clone()) });
+    steps.push(Step::Start { session: c15_session(ctx, vec![], subset) });
+    History { property: "C15".into(), seed, label: format!("a long life of one directory ({} steps)", n + 2), steps }
+}
+
 /// Deeper histories that mix every fault kind the simulator has: hook-level kills and errors,
 /// system-call level kills and errnos (when `strace` is usable), a full disk (when `mount` is), and
 /// damage in between; each fault lands in the recovery from the previous one.
